@@ -6,7 +6,9 @@ subtype_distance(T, G) is defined, the random provider exactly when is_maybe_sub
 must be subsets of "G may be a subtype of T" and must agree with each other; (b) cache coherence by
 code shape: every memoised reader of the type graph is cleared by every writer of graph edges, and
 clear_generator_cache clears every memoised method of the provider classes and is called when a
-generator moves to another return type.  Selection among the offered generators is not decided.
+generator moves to another return type; (c) the aliasing contract: a provider accessor whose
+result a caller updates in place returns the stored bucket, not a copy.  Selection among the
+offered generators is not decided.
 """
 
 from __future__ import annotations
